@@ -220,7 +220,13 @@ def predict_detail(plan, inp):
         if o == "relabel":
             return (f"label-of-{stem}", f"planned relabel for {stem} in {st['tag']}")
         if o == "wrong":
-            return (None, None)
+            # rejected by the type check of the next app, which knows the input; if that
+            # app accepts anything its main() fails on a value that cannot name a source
+            k = plan["steps"].index(st)
+            nxt = plan["steps"][k + 1] if k + 1 < len(plan["steps"]) else None
+            if nxt is not None and nxt.get("any"):
+                return (None, None)
+            return (f"{stem}.fasta", "invalid data type")
     return (None, None)
 
 
